@@ -187,3 +187,43 @@ class Hierarchy:
             # computed (e.g. a classmethod); treat as opaque parent copy
             raise AnalysisError("unsupported _slot_defaults expression in %s: %s" % (c, norm(v)))
         raise AnalysisError("unsupported _slot_defaults expression in %s" % c)
+
+
+    # ------------------------------------------------------- method closure
+    def self_closure(self, dyn: str, entry: str, max_funcs: int = 200):
+        """Functions reachable from ``dyn.entry`` through ``self.m(...)`` and
+        ``super().m(...)`` calls when the dynamic type of ``self`` is ``dyn``.
+        Returns a list of (Func, defining class qualname)."""
+        start = self.resolve(dyn, entry)
+        if start is None:
+            return []
+        out, seen, work = [], set(), [start]
+        while work:
+            f = work.pop()
+            if f.qualname in seen:
+                continue
+            seen.add(f.qualname)
+            out.append(f)
+            if len(out) > max_funcs:
+                raise AnalysisError("self-call closure of %s.%s too large" % (dyn, entry))
+            owner = f.cls.qualname if f.cls is not None else None
+            selfname = f.params[0] if f.params else "self"
+            for sub in ast.walk(f.node):
+                if not (isinstance(sub, ast.Call) and isinstance(sub.func, ast.Attribute)):
+                    continue
+                recv, m = sub.func.value, sub.func.attr
+                t = None
+                if isinstance(recv, ast.Name) and recv.id == selfname:
+                    t = self.resolve(dyn, m)
+                elif isinstance(recv, ast.Call) and norm(recv.func) == "super" and owner is not None:
+                    t = self.resolve(dyn, m, after=owner)
+                if t is not None:
+                    work.append(t)
+        return out
+
+    def property_setter(self, q: str, name: str):
+        return self.resolve(q, name, kind="setter")
+
+    def is_property(self, q: str, name: str) -> bool:
+        f = self.resolve(q, name)
+        return f is not None and f.has_decorator("property")
